@@ -31,7 +31,9 @@ Core-only executable model. It mirrors the code that exists (oddities included):
 * the link's reader (`Process` → `processBinaryProcotol` / `processTextProcotol`): binary — EVERY LockResult / CallResult
   is written to the client whatever its RequestId; an InitResult only when its RequestId is the link's `initCommand`'s,
   with `InitType := (InitType & 1) | 2 | GetInitCommandState()`; text — only a LockResult whose RequestId is
-  `lockRequestId`; a result whose RequestId is the latest one clears `latestCommandType`.
+  `lockRequestId`; a result whose RequestId is the latest one clears `latestCommandType` (`Write` records the command as
+  the latest one before its bytes leave — repaired; it used to record it afterwards, and an answer that overtook the
+  bookkeeping left an answered command as the latest one).
 * a frame the reader goroutine of a freshly opened link reads before `CheckClient` has attached the link object to its
   connection is dropped unseen (`Event.unattached`: in practice the answer to the INIT that `Open` re-sends).
 * will commands (WILL_LOCK / WILL_UNLOCK frames, text `… WILL 1`) are queued on the connection whatever the role; when a
@@ -273,10 +275,12 @@ def setLatest (l : Link) (t : CType) (r : Nat) : Link :=
 
 def clearLatest (l : Link) (r : Nat) : Link := if l.latestR = r then { l with latestT := none } else l
 
-/-- `early`: the leader's answer was read by the link's reader goroutine BEFORE `Write` (on the connection's own
-goroutine) had recorded the command as the latest one — the comparison with `latestRequestId` sees the previous value and
-nothing is cleared; `Write` then records a command that has already been answered -/
-def clearLatestE (early : Bool) (l : Link) (r : Nat) : Link := if early then l else clearLatest l r
+/-- `early`: the leader's answer was read by the link's reader goroutine before `Write` (on the connection's own
+goroutine) returned. Since the repair of `TransparencyBinaryClientProtocol.Write` (the command is recorded as the latest
+one BEFORE its bytes leave, and the previous record is put back when the write fails) the comparison with
+`latestRequestId` sees the command whichever goroutine runs first: the flag has NO effect any more. (Before the repair an
+early answer cleared nothing, and `Write` then recorded a command that had already been answered.) -/
+def clearLatestE (_early : Bool) (l : Link) (r : Nat) : Link := clearLatest l r
 
 /-- the link after the leader's answer to `r` was read -/
 def answered (early : Bool) (l : Link) (r : Nat) : Link := clearLatestE early l r
